@@ -276,14 +276,16 @@ class Env:
 
         f = ComponentsFileSystemFinder()
         by_root = {os.path.realpath(r): lab for lab, r in self.tree["roots"].items()}
-        order = []
+        order, foreign = [], []
         for _prefix, root in f.locations:
             lab = by_root.get(os.path.realpath(root))
-            if lab is None:
-                raise par.HarnessError(f"finder location {root} is not one of the generated directories")
-            order.append(lab)
-        if sorted(order) != sorted(self.labels):
-            raise par.HarnessError(f"layout {self.layout}: finder locations {order}, expected {self.labels}")
+            if lab is None or lab not in self.labels:
+                foreign.append(root)
+            elif lab not in order:
+                order.append(lab)
+        # a configured directory the finder does not know is judged like any other (its files come out as under-exposed)
+        order += [lab for lab in self.labels if lab not in order]
+        self.foreign_locations = foreign
         return f, order
 
 
@@ -350,6 +352,8 @@ def run_config(env, form, allowed, forbidden, only=None):
     res = ConfigResult()
     env.install(form, allowed, forbidden)
     finder, order = env.finder()
+    for loc in env.foreign_locations:
+        res.problems.append(("locations", "foreign", f"the finder serves {loc}, which is not a configured component directory", ""))
     V = {lab: {rel: verdicts(allowed, forbidden, rel) for rel in sorted(tree["files"][lab], key=_nice)} for lab in order}
     n_exposed = sum(1 for lab in order for v in V[lab].values() if v == {True})
     n_hidden = sum(1 for lab in order for v in V[lab].values() if v == {False})
@@ -509,6 +513,7 @@ def shrink(env, form, allowed, forbidden, op, clause, q):
 def _worker(w, W, payload):
     tree, tier = payload["tree"], payload["tier"]
     agg = par.Agg()
+    seen_ids = set()
     cfgs = configs(tier)
     for layout in LAYOUTS:
         mine = [(i, c) for i, c in enumerate(cfgs) if c[0] == layout and i % W == w]
@@ -534,9 +539,17 @@ def _worker(w, W, payload):
                         continue
                     done.add((op, clause))
                     n = sum(1 for p in res.problems if p[0] == op and p[1] == clause)
-                    culprit, a2, f2 = shrink(env, form, allowed, forbidden, op, clause, q)
+                    if op == "locations":
+                        culprit, a2, f2 = layout, allowed, forbidden
+                    else:
+                        culprit, a2, f2 = shrink(env, form, allowed, forbidden, op, clause, q)
+                    ident = f"{op}:{clause}:{culprit}"
+                    agg.extra["failing_queries"] += n
+                    if ident in seen_ids:  # keep the first (smallest) configuration per identity and worker
+                        continue
+                    seen_ids.add(ident)
                     agg.fail(
-                        f"{op}:{clause}:{culprit}",
+                        ident,
                         f"[{layout}/{form}] allowed={list_repr(allowed)} forbidden={list_repr(forbidden)}: {what} ({n} such queries in this configuration)",
                         {"part": "finder", "layout": layout, "form": form, "allowed": allowed, "forbidden": forbidden, "op": op, "query": q,
                          "minimal": {"allowed": a2, "forbidden": f2}},
@@ -656,6 +669,13 @@ def run(ctx):
             "ComponentsFileSystemFinder over one tree holding the whole file-name product; non-trivial = configurations under which the "
             "reference exposes at least one file and hides at least one"
         )
+        # determinism self-test (DESIGN 1.3): the same configurations twice in this process give the same observations
+        with Env(tree, "multi") as env:
+            for a, f in ((None, None), ([("re", r"^sub/")], [("s", ".min.js")])):
+                o1 = run_config(env, "new", a, f).observed
+                o2 = run_config(env, "new", a, f).observed
+                if o1 != o2 or not o1:
+                    raise par.HarnessError("finder observations are not reproducible within one process")
         agg = par.run_sharded(_worker, {"tree": tree, "tier": ctx.tier})
         fnd.merge_reports(sorted(agg.failures, key=lambda f: (len(repr(f[2]["allowed"])) + len(repr(f[2]["forbidden"])), LAYOUTS.index(f[2]["layout"]),
                                                               FORMS.index(f[2]["form"]), repr(f[2]))))
